@@ -146,7 +146,7 @@ def program(draw, profile=None):
     specs = draw(st.permutations(specs))
     for name, role in specs:
         if role == "taskable":
-            sched = draw(st.sampled_from(["active", "active", "active", "inactive"]))
+            sched = draw(st.sampled_from(prof.get("scheds", ["active", "active", "active", "inactive"])))
             order = draw(st.sampled_from(prof["orders"]))
             period = draw(st.sampled_from(prof["tasker_periods"]))
         else:
@@ -166,6 +166,17 @@ def program(draw, profile=None):
         first = draw(st.sampled_from([None, None] + fnames))
         framers.append({"name": name, "sched": sched, "order": order, "period": period,
                         "first": first, "frames": frames, "_role": role})
+    # "clean" aux policy: every aux framer has one owner framer and one mode (plain: may be
+    # listed in several frames of the owner; cond: used by exactly one `aux .. if` clause)
+    assign = {}
+    if prof.get("aux_policy") == "clean":
+        for a in anames:
+            if prof.get("aux_owner") == "taskable":
+                owners = list(tnames)
+            else:
+                owners = tnames + snames + [b for b in anames if int(b[1:]) < int(a[1:])]
+            assign[a] = {"owner": draw(st.sampled_from(owners)),
+                         "mode": draw(st.sampled_from(prof.get("aux_modes", ["plain", "cond"]))), "used": False}
     # acts
     for fr in framers:
         role = fr["_role"]
@@ -176,6 +187,8 @@ def program(draw, profile=None):
             usable_aux = [a for a in anames if int(a[1:]) > int(name[1:])]
         else:
             usable_aux = list(anames)
+        if assign:
+            usable_aux = [a for a in usable_aux if assign[a]["owner"] == name]
         for fi, f in enumerate(fr["frames"]):
             nacts = draw(st.integers(*prof["acts"]))
             frame_auxes = []
@@ -184,13 +197,18 @@ def program(draw, profile=None):
                 if fi + 1 >= len(fnames):
                     table["timeout"] = 0
                     table["repeat"] = 0
-                if not usable_aux:
+                plain_ok = [a for a in usable_aux if not assign or assign[a]["mode"] == "plain"]
+                cond_ok = [a for a in usable_aux if not assign or (assign[a]["mode"] == "cond" and not assign[a]["used"])]
+                if not plain_ok:
                     table["aux"] = 0
+                if not cond_ok:
                     table["auxif"] = 0
                 if role != "taskable" or not snames:
                     table["fiat"] = 0
                 if not (anames or snames) and role == "taskable":
                     table["done"] = 0
+                if role == "aux" and prof.get("let_in_aux") is False:
+                    table["let"] = 0
                 env = {"prof": prof, "doneables": anames + snames, "statusables": tnames + snames,
                        "frame_auxes": list(frame_auxes), "frame_names": fnames}
                 k = _weighted(draw, table)
@@ -209,13 +227,15 @@ def program(draw, profile=None):
                 elif k == "repeat":
                     a = {"kind": "repeat", "n": draw(st.integers(0, 4))}
                 elif k == "aux":
-                    x = draw(st.sampled_from(usable_aux))
+                    x = draw(st.sampled_from(plain_ok))
                     a = {"kind": "aux", "name": x, "needs": []}
                     if x not in frame_auxes:
                         frame_auxes.append(x)
                 elif k == "auxif":
-                    x = draw(st.sampled_from(usable_aux))
+                    x = draw(st.sampled_from(cond_ok))
                     a = {"kind": "aux", "name": x, "needs": draw(needs(env, 1, 2))}
+                    if assign:
+                        assign[x]["used"] = True
                 elif k == "bid":
                     verb = draw(st.sampled_from(["start", "run", "stop", "stop", "abort", "ready"]))
                     tg = draw(st.lists(st.sampled_from(tnames + ["me", "all"]), min_size=1, max_size=2, unique=True))
@@ -240,8 +260,50 @@ def program(draw, profile=None):
                 else:
                     raise ValueError(k)
                 f["acts"].append(a)
+    # clean policy: every aux framer is really used by its owner (otherwise most programs never
+    # enter an auxiliary): insert the missing aux clause into one of the owner's frames
+    if assign:
+        for fr in framers:
+            for aname in anames:
+                info = assign[aname]
+                if info["owner"] != fr["name"]:
+                    continue
+                cands = fr["frames"]
+                if prof.get("aux_place") == "first":
+                    # the framer's first frame or one of its ancestors: entered whenever the framer starts
+                    byname = {x["name"]: x for x in fr["frames"]}
+                    x = byname[fr["first"]] if fr.get("first") else fr["frames"][0]
+                    cands = [x]
+                    while x.get("over"):
+                        x = byname[x["over"]]
+                        cands.append(x)
+                used = any(a["kind"] == "aux" and a["name"] == aname for f in cands for a in f["acts"])
+                if used or (info["mode"] == "cond" and info["used"]):
+                    continue
+                f = draw(st.sampled_from(cands))
+                env = {"prof": prof, "doneables": anames + snames, "statusables": tnames + snames,
+                       "frame_auxes": [], "frame_names": [x["name"] for x in fr["frames"]]}
+                a = {"kind": "aux", "name": aname, "needs": [] if info["mode"] == "plain" else draw(needs(env, 1, 2))}
+                info["used"] = True
+                f["acts"].insert(draw(st.integers(0, len(f["acts"]))), a)
+    if prof.get("aux_completes"):
+        # make auxiliaries walk through their frames and complete after a few ticks
+        for fr in framers:
+            if fr["sched"] != "aux" or draw(st.integers(0, 3)) == 0:
+                continue
+            for i, f in enumerate(fr["frames"]):
+                if i + 1 < len(fr["frames"]):
+                    f["acts"].append({"kind": "repeat", "n": draw(st.integers(0, 2))})
+                else:
+                    f["acts"].append({"kind": "done", "targets": ["me"],
+                                      "ctx": draw(st.sampled_from(["native", "recur"]))})
+    if prof.get("driver"):
+        # a driver framer that makes conditions flip over time: .n.a counts ticks
+        framers.insert(0, {"name": "drv", "sched": "active", "order": "front", "period": None, "first": None,
+                           "frames": [{"name": "drva", "over": None,
+                                       "acts": [{"kind": "inc", "dst": ".n.a", "val": 1, "ctx": "recur"}]}]})
     for fr in framers:
-        del fr["_role"]
+        fr.pop("_role", None)
     inits = [[p, 0] for p in NUM] + [[STR[0], ""], [FLG[0], False]]
     prog = {"period": draw(st.sampled_from(prof["periods"])), "ticks": draw(st.integers(*prof["ticks"])),
             "inits": inits, "framers": framers}
